@@ -211,6 +211,13 @@ func runC03(t *mon.T, raw json.RawMessage) {
 	if d.MaxCid > 0 && r.Intn(2) == 0 {
 		content.Blocks = append(content.Blocks, refcar.Block{Cid: refcar.MakeCidV1(0x55, 0x13, gen.Bytes(r, 64)), Data: []byte("long cid")})
 	}
+	if (d.Seed>>7)%2 == 0 {
+		// an identity CID whose digest needs a two-byte length varint inside the multihash (127 is the last
+		// one-byte length): every sorted-index bucket is keyed by the digest proper, whatever its length field
+		idd := gen.Bytes(r, []int{127, 128, 129, 255, 256, 300}[r.Intn(6)])
+		content.Blocks = append(content.Blocks, refcar.Block{Cid: refcar.MakeCidV1(0x55, 0x00, idd), Data: idd})
+		t.Cover("identity-digest-around-the-two-byte-length-varint")
+	}
 	r.Shuffle(len(content.Blocks), func(i, j int) { content.Blocks[i], content.Blocks[j] = content.Blocks[j], content.Blocks[i] })
 	payload := refcar.EncodeV1(content.Roots, content.NilRoots, content.Blocks)
 	ref, err := refcar.DecodeV1(payload, false)
@@ -569,7 +576,7 @@ func init() {
 	Register(&mon.Check{
 		ID:          "C03",
 		Level:       "exploration",
-		Rule:        "cases = seeded payloads (a few with 16k-53k tiny sections; synthetic + honest CIDs, duplicates, equal digest under two hash codes, identity with/without data, CIDv0, digest widths 0..80) x container {v1, null-padded v1, v2, padded v2, index-less v2} x {StoreIdentityCIDs, ZeroLengthSectionAsEOF, MaxIndexCidSize}; each is indexed by 3 builders from 7 source kinds (seekable, *os.File, plain reader, 1-byte reader, bufio.Reader and bytes.Buffer which are ByteReaders without Seek, Reader.DataReader) (+ file path and ReadOrGenerateIndex) and every index is probed with every present CID and 2-3 absent neighbours each; non-trivial = all",
+		Rule:        "cases = seeded payloads (a few with 16k-53k tiny sections; synthetic + honest CIDs, duplicates, equal digest under two hash codes, identity with/without data, CIDv0, digest widths 0..80, identity digests of 127..300 bytes) x container {v1, null-padded v1, v2, padded v2, index-less v2} x {StoreIdentityCIDs, ZeroLengthSectionAsEOF, MaxIndexCidSize}; each is indexed by 3 builders from 7 source kinds (seekable, *os.File, plain reader, 1-byte reader, bufio.Reader and bytes.Buffer which are ByteReaders without Seek, Reader.DataReader) (+ file path and ReadOrGenerateIndex) and every index is probed with every present CID and 2-3 absent neighbours each; non-trivial = all",
 		Assumptions: []string{"reference scan (refcar.DecodeV1) yields the true key → offsets multiset", "the insertion index is not an on-disk codec: digest-keyed or multihash-keyed GetAll answers are both accepted for it"},
 		Gen:         genC03,
 		Run:         runC03,
